@@ -103,6 +103,7 @@ ClassOK(c, o, addr) ==
                                 /\ Rel(o, addr) >= RelClass[c][1] /\ Rel(o, addr) <= RelClass[c][2]
     [] c = "IxF"   -> IdxFamily(o)
     [] c = "IxLpm" -> IdxLpm(o)
+    [] c = "IxZinc" -> o.k = "ix" /\ o.reg = "Z" /\ o.mode = "inc"
     [] OTHER -> FALSE
 
 (* Sigs(mn, core): the operand signatures the ISA defines for a mnemonic.  *)
@@ -118,6 +119,7 @@ Sigs(mn, core) ==
     [] mn = "movw"   -> { <<"Re", "Re">> }
     [] In(Rel12, mn) -> { <<"Rel12">> }
     [] In(Abs22, mn) -> { <<"A22">> }
+    [] mn = "spm" -> { << >>, <<"IxZinc">> }                                     \* SPM and SPM Z+
     [] In(Fixed, mn) \/ In(SeNames, mn) \/ In(ClNames, mn) -> { << >> }
     [] mn \in {"brbs", "brbc"} -> { <<"B3", "Rel7">> }
     [] In(BrSet, mn) \/ In(BrClr, mn) -> { <<"Rel7">> }
@@ -183,6 +185,7 @@ Encode(mn, ops, core, addr) ==
     [] In(Rel12, mn) -> << Rel12[mn] + Mod(Rel(ops[1], addr), 4096) >>
     [] In(Abs22, mn) -> << Abs22[mn] + (ops[1].v \div 131072) * 16 + ((ops[1].v \div 65536) % 2),
                            ops[1].v % 65536 >>
+    [] mn = "spm" /\ Len(ops) = 1 -> << 38392 >>                                  \* 95F8
     [] In(Fixed, mn) -> << Fixed[mn] >>
     [] In(SeNames, mn) -> << SFlag["bset"] + SeNames[mn] * 16 >>
     [] In(ClNames, mn) -> << SFlag["bclr"] + ClNames[mn] * 16 >>
@@ -240,6 +243,7 @@ DecRows == <<
   [m |-> 65535, v |-> 38280, id |-> "sleep"], [m |-> 65535, v |-> 38296, id |-> "break"],
   [m |-> 65535, v |-> 38312, id |-> "wdr"],   [m |-> 65535, v |-> 38344, id |-> "lpm0"],
   [m |-> 65535, v |-> 38360, id |-> "elpm0"], [m |-> 65535, v |-> 38376, id |-> "spm"],
+  [m |-> 65535, v |-> 38392, id |-> "spmZ+"],
   [m |-> 65423, v |-> 37896, id |-> "bset"],  \* FF8F 9408
   [m |-> 65423, v |-> 38024, id |-> "bclr"],  \* FF8F 9488
   [m |-> 65038, v |-> 37900, id |-> "jmp"],   \* FE0E 940C
@@ -309,6 +313,7 @@ Decode(ws, core, addr) ==
   IN
   CASE id \in {"nop", "ijmp", "eijmp", "icall", "eicall", "ret", "reti", "sleep", "break", "wdr", "spm"}
             -> [mn |-> id, ops |-> << >>]
+    [] id = "spmZ+" -> [mn |-> "spm", ops |-> <<Ix("Z", "inc", 0)>>]
     [] id = "lpm0"  -> [mn |-> "lpm", ops |-> << >>]
     [] id = "elpm0" -> [mn |-> "elpm", ops |-> << >>]
     [] id \in {"bset", "bclr"} -> [mn |-> id, ops |-> <<E(Bits(w, 4, 3))>>]
@@ -371,6 +376,7 @@ Canon(mn, ops, core, addr) ==
     [] mn \in {"ld", "ldd"} -> [mn |-> "ld", ops |-> <<ops[1], CanonIx(ops[2])>>]
     [] mn \in {"st", "std"} -> [mn |-> "st", ops |-> <<CanonIx(ops[1]), ops[2]>>]
     [] mn \in {"lpm", "elpm"} /\ Len(ops) = 2 -> [mn |-> mn, ops |-> <<ops[1], Ix("Z", ops[2].mode, 0)>>]
+    [] mn = "spm" /\ Len(ops) = 1 -> [mn |-> "spm", ops |-> <<Ix("Z", "inc", 0)>>]
     [] OTHER -> [mn |-> mn, ops |-> [i \in 1..Len(ops) |->
                      IF ops[i].k = "e" THEN E(ops[i].v) ELSE ops[i]]]
 =============================================================================
